@@ -36,6 +36,20 @@ static bool tierThorough()
   return t && std::string(t) == "thorough";
 }
 
+// A sweep has no per-case file of its own; save the extent in flight so that a sanitizer abort (e.g. a division
+// by zero or an out-of-range shift inside a broken index map) leaves the driver a case to replay.
+template <class Case>
+static void sweep_mark(const char *prop, const Case &c)
+{
+  pbt::Global &g = pbt::G();
+  pbt::write_file(g.outdir + "/" + g.bin + "." + prop + ".current.case", std::string(prop) + "@" + g.bin + "\n" + pbt::to_text(c) + "\n");
+}
+static void sweep_unmark(const char *prop)
+{
+  pbt::Global &g = pbt::G();
+  unlink((g.outdir + "/" + g.bin + "." + prop + ".current.case").c_str());
+}
+
 static std::string s128(u128 v)
 {
   if (v == 0)
@@ -248,8 +262,8 @@ static void index_small_one(const IdxCase &c, pbt::Ctx &ctx)
 
 static void index_small_sweep(pbt::SweepResult<IdxCase> &r)
 {
-  const int N3 = tierThorough() ? 24 : 12;  // DESIGN asks for >= [1..6]^3
-  const int N2 = tierThorough() ? 128 : 40; // DESIGN asks for >= [1..12]^2
+  const int N3 = tierThorough() ? 28 : 16;  // DESIGN asks for >= [1..6]^3
+  const int N2 = tierThorough() ? 160 : 64; // DESIGN asks for >= [1..12]^2
   ull ext3 = 0, ext2 = 0, zero = 0;
   IdxCase cur;
   long long at = -1;
@@ -258,6 +272,8 @@ static void index_small_sweep(pbt::SweepResult<IdxCase> &r)
     for (cur.dx = 0; cur.dx <= N3; ++cur.dx)
       for (cur.dy = 0; cur.dy <= N3; ++cur.dy)
         for (cur.dz = 0; cur.dz <= N3; ++cur.dz) {
+          cur.k = -1;
+          sweep_mark("index_small", cur);
           const ull cells = check_extent3(cur.dx, cur.dy, cur.dz, at);
           ++ext3;
           r.evaluations += cells ? cells : 1;
@@ -276,6 +292,7 @@ static void index_small_sweep(pbt::SweepResult<IdxCase> &r)
     cur.dz = 1;
     for (cur.dx = 0; cur.dx <= N2; ++cur.dx)
       for (cur.dy = 0; cur.dy <= N2; ++cur.dy) {
+        sweep_mark("index_small", cur);
         const ull cells = check_extent2(cur.dx, cur.dy, at);
         ++ext2;
         r.evaluations += cells ? cells : 1;
@@ -293,6 +310,7 @@ static void index_small_sweep(pbt::SweepResult<IdxCase> &r)
     r.failing = cur;
     r.msg = f.msg;
   }
+  sweep_unmark("index_small");
   r.labels["3D extents"] = ext3;
   r.labels["2D extents"] = ext2;
   r.labels["zero extents (iteration only)"] = zero;
@@ -368,7 +386,7 @@ static void region_one(const RegCase &c, pbt::Ctx &ctx)
 
 static void region_sweep(pbt::SweepResult<RegCase> &r)
 {
-  const int A = tierThorough() ? -3 : -2, B = tierThorough() ? 6 : 4;
+  const int A = -3, B = tierThorough() ? 6 : 4;
   RegCase c;
   try {
     for (c.lx = A; c.lx <= B; ++c.lx)
@@ -680,7 +698,7 @@ static rc::Gen<RegCase> genRegionLimits()
 {
   auto lower = rc::gen::weightedOneOf<long long>({{3, rc::gen::element<long long>(INT_MIN, INT_MIN + 1, -3, -1, 0, 1, INT_MAX - 4, INT_MAX - 1, INT_MAX)},
       {1, pbt::range<long long>(INT_MIN, INT_MAX)}});
-  auto len = pbt::range<int>(-2, 5);
+  auto len = rc::gen::weightedOneOf<int>({{1, pbt::range<int>(-2, 0)}, {2, rc::gen::just(1)}, {6, pbt::range<int>(1, 5)}});
   return rc::gen::map(rc::gen::tuple(lower, lower, lower, len, len, len), [](const std::tuple<long long, long long, long long, int, int, int> &t) {
     auto fit = [](long long lo, int len, int &l, int &u) {
       // keep both ends representable: lower+len in [INT_MIN, INT_MAX]
@@ -705,9 +723,9 @@ static void register_properties()
 {
   pbt::sweep<IdxCase>("index_small", index_small_sweep, index_small_one);
   pbt::sweep<RegCase>("for_each_small", region_sweep, region_one);
-  pbt::property<BigCase>("mdis3_large", 6000, genBig(3, 44, 63), mdis3_large);
-  pbt::property<BigCase>("mdis2_large", 4000, genBig(2, 62, 63), mdis2_large);
-  pbt::property<BigCase>("long3_large", 6000, genBig(3, 31, 62), long3_large);
-  pbt::property<RegCase>("for_each_limits", 4000, genRegionLimits(), region_one);
+  pbt::property<BigCase>("mdis3_large", 20000, genBig(3, 44, 63), mdis3_large);
+  pbt::property<BigCase>("mdis2_large", 12000, genBig(2, 62, 63), mdis2_large);
+  pbt::property<BigCase>("long3_large", 20000, genBig(3, 31, 62), long3_large);
+  pbt::property<RegCase>("for_each_limits", 10000, genRegionLimits(), region_one);
 }
 PBT_MAIN("C17_index")
